@@ -96,7 +96,7 @@ def check(case) -> Outcome:
                 target_outcomes={V(y) for y in case["Y"]},
                 target_interventions={V(x) for x in case["X"]},
                 surrogate_outcomes={Variable(d["pop"]): {V(w) for w in d["W"]} for d in case["domains"]},
-                surrogate_interventions={Variable(d["pop"]): {V(z) for z in d["Z"]} for d in case["domains"]},
+                surrogate_interventions={Variable(d["pop"]): {V(z) for z in d["Z"]} for d in (list(reversed(case["domains"])) if len(case["domains"]) % 2 == 0 or sum(len(d["Z"]) for d in case["domains"]) % 2 else case["domains"])},
             )
         elif alg == "idstar":
             out.key = f"idstar|{graph_key(g)}|{cfutil.show(case['event'])}"
